@@ -1403,6 +1403,15 @@ func main() {
 	writeIfChanged(filepath.Join(*out, "GenReqStatePool.v"), w.Bytes())
 	fmt.Printf("go2v: GenReqStatePool.v %d pool sites, %d uses of a pooled RequestState, %d fields\n", nrp, nru, nrf)
 
+	// GenReplySites.v (C06): the id expression of every response message the library builds (replyids.go)
+	w.Reset()
+	fmt.Fprintf(&w, header, *repo)
+	fmt.Fprintf(&w, "From Coq Require Import String.\nFrom Verif Require Import Gen.GenConsts Gen.GenReplyIds.\n")
+	nri, nrs0 := root.emitRidSites(&w)
+	nrt := root.emitRidTable(&w)
+	writeIfChanged(filepath.Join(*out, "GenReplySites.v"), w.Bytes())
+	fmt.Printf("go2v: GenReplySites.v %d reply-id site lists, %d not translated, %d rows in the table of id-writing sites\n", nri, nrs0, nrt)
+
 	// GenTypedBuf.v, GenMessages.v ...: byte-buffer methods and message codecs (methods.go)
 	emitMethodFiles(all, *repo, *out)
 }
